@@ -363,9 +363,19 @@ def run_impl_one(c):
             del table[:]
             try:
                 d = await g.evaluate_async(subj, act, res, ctx)
-                decisions.append({"allowed": d.allowed, "effect": d.effect, "obligations": d.obligations,
-                                  "challenge": d.challenge, "rule_id": d.rule_id, "policy_id": d.policy_id,
-                                  "reason": d.reason})
+                decisions.append(copy.deepcopy({"allowed": d.allowed, "effect": d.effect, "obligations": d.obligations,
+                                                "challenge": d.challenge, "rule_id": d.rule_id, "policy_id": d.policy_id,
+                                                "reason": d.reason}))
+                # the caller consumes the Decision it was handed (list-level edits of its obligations, as a PEP that
+                # pops them while fulfilling them): nothing of that may reach the next answer (the cache hit)
+                if isinstance(d.obligations, list):
+                    k = len(json.dumps(c["req"], default=str)) % 3
+                    if k == 0:
+                        d.obligations.clear()
+                    elif k == 1 and d.obligations:
+                        d.obligations.pop(0)
+                    else:
+                        d.obligations.append({"type": "zz_caller_note"})
             except Exception as e:  # noqa: BLE001
                 decisions.append(["Raise", type(e).__name__])
             tables.append(copy.deepcopy(table))
